@@ -38,7 +38,8 @@ type Plan struct {
 	//  "short"  header of packet At promises its full length, only half the
 	//           payload follows, then close
 	//  "oos"    packet At is sent with a wrong sequence number
-	//  "err"    an ERR packet is sent instead of packet At
+	//  "err"    an ERR packet is sent instead of packet At ("errfin": then the
+	//           connection is closed; "erreof": then an EOF packet follows)
 	//  "eof"    an EOF packet is sent instead of packet At
 	//  "inject" Inject is sent as an event before packet At
 	//  "replace" Inject is sent instead of packet At
@@ -266,6 +267,24 @@ func (m *Master) stream(idx int, c Conn, log *ConnLog, plan Plan, d ref.DumpRequ
 			case "err":
 				log.StreamEnded = "err"
 				if !release(i, ref.Frame(seq, ref.ERR(plan.Err))) {
+					return false
+				}
+				return true
+			case "errfin":
+				// ERR packet, then the master closes the connection
+				log.StreamEnded = "err"
+				if !release(i, ref.Frame(seq, ref.ERR(plan.Err))) {
+					return false
+				}
+				c.Close()
+				return false
+			case "erreof":
+				// ERR packet followed by an EOF packet (a proxy that appends its own end marker)
+				log.StreamEnded = "err"
+				if !release(i, ref.Frame(seq, ref.ERR(plan.Err))) {
+					return false
+				}
+				if !release(i, ref.Frame(seq, ref.EOFPacket())) {
 					return false
 				}
 				return true
